@@ -20,7 +20,8 @@ TEXT = ("Thin claim: the round-trip sentence of C04 (flatten -> diff -> store ->
         "string value is refused by generate_identifier for user identifiers, generated identifiers hash an injective "
         "encoding of the path, the path handed down to a field value extends the incoming path by the owner's identifier and the field key, "
         "and array descriptor identifiers are an injective function of (owner, key) - three open "
-        "known findings (F10-F12).")
+        "known findings (F10-F12)."
+        " U5: every return of update that can be a success passes through both per-object passes over the submitted document.")
 TECHNIQUE = 'static analysis over rustc MIR: edge dominance on change tests in update_object/commit, encoder/decoder prefix-table agreement and injectivity of composed identifiers'
 TRUSTED = ["rustc nightly MIR", "effect summaries", "yavomrs returns an empty script for equal sequences"]
 
